@@ -254,6 +254,7 @@ func registerModels(e *Engine) {
 	registerCryptoModels(e)
 	registerTimeModels(e)
 	registerSyncModels(e)
+	registerSortModels(e)
 	registerXMLHookModels(e)
 	registerStringModels(e)
 }
@@ -269,4 +270,50 @@ func InReOrConst(s *Term, class string) *Term {
 		return BoolC(matchClassConcrete(class, s.S))
 	}
 	return InRe(s, regexClasses[class])
+}
+
+// sort.Slice / sort.SliceStable / sort.Strings on short slices: an insertion sort
+// (stable) that calls the real less function and forks on its symbolic result;
+// elements are moved in the backing array, so a sort of shared data is a write to it.
+func registerSortModels(e *Engine) {
+	m := e.Models
+	sortSlice := func(x *Exec, fr *frame, a []Value) Value {
+		iv, ok := x.force(a[0]).(*IfaceV)
+		if !ok || iv.T == nil {
+			panic(&guestPanic{msg: "sort.Slice of a nil interface"})
+		}
+		s, ok := x.force(iv.V).(*SliceV)
+		if !ok {
+			panic(abortf("sort.Slice of %T", iv.V))
+		}
+		if s.Arr == nil || s.Len < 2 {
+			return nil
+		}
+		if s.Len > 6 {
+			panic(abortf("sort.Slice of more than 6 elements is not encoded"))
+		}
+		less, ok := x.force(a[1]).(*FuncV)
+		if !ok {
+			panic(abortf("sort.Slice: less is %T", a[1]))
+		}
+		at := func(i int) *Pointer { return &Pointer{Cell: s.Arr, Path: []int{s.Off + i}} }
+		for i := 1; i < s.Len; i++ {
+			for j := i; j > 0; j-- {
+				r := x.callFuncV(fr, less, []Value{IntC(int64(j)), IntC(int64(j - 1))}, nil)
+				t, ok := r.(*Term)
+				if !ok {
+					panic(abortf("sort.Slice: less returns %T", r))
+				}
+				if !x.Branch(t) {
+					break
+				}
+				vj, vk := x.load(at(j)), x.load(at(j-1))
+				x.store(at(j), vk)
+				x.store(at(j-1), vj)
+			}
+		}
+		return nil
+	}
+	m["sort.Slice"] = sortSlice
+	m["sort.SliceStable"] = sortSlice
 }
